@@ -7,6 +7,7 @@
 (***************************************************************************)
 EXTENDS SeatManager
 
+SeqSetS(q) == {q[k] : k \in 1..Len(q)}
 Occupied(m) == {s \in SeatIds(m) : m.seat[s].player # NULL}
 \* the seat ids strictly between a and b walking clockwise from a (empty when a = b)
 BetweenCW(m, a, b) == {x \in SeatIds(m) : x # a /\ x # b /\ ((x - a) % m.max) < ((b - a) % m.max)}
@@ -84,6 +85,15 @@ C18_leave(m, t, o) == o.op = "Leave" =>
   IF o.seat \in SeatIds(m) /\ m.seat[o.seat].player # NULL
   THEN o.res = "" /\ t.seat[o.seat].player = NULL /\ OnlySeatChanged(m, t, o.seat)
   ELSE o.res \notin {"", "PANIC"} /\ SameSeats(m, t)
+\* match.Table.ApplySeatChanges (match/table.go): the seats reported "left" are freed - exactly those that were
+\* occupied, each announced by one player-left callback naming who sat there - and nothing else changes
+C18_applyLeft(m, t, o) == o.op = "MT.Apply" =>
+  LET freed == {s \in SeqSetS(o.left) \cap SeatIds(m) : m.seat[s].player # NULL} IN
+  /\ o.res = ""
+  /\ \A s \in freed : t.seat[s].player = NULL /\ ~t.seat[s].reserved
+  /\ \A s \in SeatIds(m) \ freed : t.seat[s] = m.seat[s]
+  /\ {<<o.cbs[k][2], o.cbs[k][3]>> : k \in {j \in 1..Len(o.cbs) : o.cbs[j][1] = "left"}} = {<<m.seat[s].player, s>> : s \in freed}
+  /\ Cardinality({j \in 1..Len(o.cbs) : o.cbs[j][1] = "left"}) = Cardinality(freed)
 C18_noDup(t) == \A a, b \in Occupied(t) : a # b => t.seat[a].player # t.seat[b].player
 
 (* C18, schedules: an episode of CONCURRENT Join calls (pre, calls, post), order-free *)
@@ -114,7 +124,8 @@ HistS0 == [joins |-> 0, leaves |-> 0, track |-> [s \in {} |-> 0], occAtNext |-> 
 HistSJump(t) == [joins |-> Cardinality(Occupied(t)), leaves |-> 0, track |-> [s \in {} |-> 0], occAtNext |-> {}]
 HistSNext(h, m, t, o) ==
   [joins |-> h.joins + (IF o.op = "Join" /\ o.res = "" THEN 1 ELSE 0),
-   leaves |-> h.leaves + (IF o.op = "Leave" /\ o.res = "" THEN 1 ELSE 0),
+   leaves |-> h.leaves + (IF o.op = "Leave" /\ o.res = "" THEN 1 ELSE 0)
+                       + (IF o.op = "MT.Apply" THEN Cardinality({j \in 1..Len(o.cbs) : o.cbs[j][1] = "left"}) ELSE 0),
    track |-> TrackNext(h, m, t, o),
    occAtNext |-> IF NextOK(o) THEN Occupied(t) ELSE h.occAtNext]
 
@@ -124,7 +135,8 @@ FailedSeat(h, h2, m, t, o, props) ==
   (IF "C17" \in props THEN N("C17.button", C17_button(m, t, o)) \cup N("C17.insufficient", C17_insufficient(m, t, o)) ELSE {}) \cup
   (IF "C18" \in props THEN N("C18.noPanic", C18_noPanic(o)) \cup N("C18.count", o.res = "PANIC" \/ C18_count(h2, t))
                            \cup N("C18.join", C18_join(m, t, o)) \cup N("C18.heldOut", C18_heldOut(t, o))
-                           \cup N("C18.leave", C18_leave(m, t, o)) \cup N("C18.noDup", C18_noDup(t)) ELSE {})
+                           \cup N("C18.leave", C18_leave(m, t, o)) \cup N("C18.noDup", C18_noDup(t))
+                           \cup N("C18.match.applyLeft", C18_applyLeft(m, t, o)) ELSE {})
 ExercisedSeat(h, m, t, o) ==
   {"op." \o o.op \o (IF o.res = "" THEN ".ok" ELSE ".refused")} \cup
   (IF NextOK(o) THEN {"C08.positions.n" \o ToString(Cardinality(PlayableSet(t)))} ELSE {}) \cup
